@@ -7,7 +7,10 @@ dst = os.path.join('/verif/seeded', sid)
 os.makedirs(dst, exist_ok=True)
 patch = os.path.join(src, 'seed_patch.diff')
 shutil.copy(patch, os.path.join(dst, 'patch.diff'))
-shutil.copy(os.path.join(src, 'seed_demo.py'), os.path.join(dst, 'demo.py'))
+demo = open(os.path.join(src, 'seed_demo.py')).read().split('\n')
+demo = [l for l in demo
+        if "assert circus.__file__.startswith('/tmp/seed" not in l]
+open(os.path.join(dst, 'demo.py'), 'w').write('\n'.join(demo))
 notes = os.path.join(src, 'seed_notes.md')
 if os.path.exists(notes):
     shutil.copy(notes, os.path.join(dst, 'notes.md'))
